@@ -136,6 +136,12 @@ fn queue_file_range(
                 while copied < bytes {
                     let n = copy_file_offset(&harc.infd, &harc.outfd, bytes - copied, (off + copied) as i64)? as u64;
                     if n == 0 {
+                        // End of file. Extents can extend past it,
+                        // but the file must not end before the size
+                        // it had when it was opened.
+                        if off + copied < harc.metadata.len() {
+                            return Err(libfs::Error::InvalidSource("Source file ended prematurely."));
+                        }
                         break;
                     }
                     copied += n;
